@@ -35,6 +35,7 @@ type Prog struct {
 	CanaryFuncs   []*ssa.Function
 	GOARCH        string
 	sites         map[*ssa.Function][]ssa.CallInstruction
+	fnValues      map[*ssa.Function]bool
 	CanaryDropped []string // packages whose canary file did not compile against this tree
 }
 
